@@ -139,6 +139,9 @@ func init() {
 // vIntToken: a boundary integer, or a signed decimal of 1-2 symbolic digits (so -99..99 and junk-free).
 func vIntToken() []byte {
 	bi := redis.VsymBoundaryInts()
+	if vsymParamInt("fewbounds", 0) == 1 {
+		bi = []string{"0", "-1", "2147483648", "9223372036854775807", "-9223372036854775808", "9223372036854775808"}
+	}
 	if vsymChoice("intkind", 2) == 0 {
 		return []byte(bi[vsymChoice("boundary", len(bi))])
 	}
@@ -146,7 +149,7 @@ func vIntToken() []byte {
 	if vsymChoice("neg", 2) == 1 {
 		out = append(out, '-')
 	}
-	n := 1 + vsymChoice("ndigits", 2)
+	n := 1 + vsymChoice("ndigits", vsymParamInt("maxdigits", 2))
 	for i := 0; i < n; i++ {
 		d := vsymByte("digit")
 		vsymAssume(d >= '0' && d <= '9')
